@@ -284,15 +284,33 @@ func (e *Engine) applySpecUF(fr *Frame, st *State, fn *ssa.Function, args []Valu
 	}
 	var ts []*Term
 	readsBytes := false
+	wholeBytes := false
+	pristine := true // the elements of non-byte slice arguments are still their pre-state values
+	var elemVers []string
 	var regions []*Term
 	for i, a := range args {
 		t := fn.Signature.Params().At(i).Type()
 		fl := e.flat(a, t)
 		ts = append(ts, fl...)
-		switch t.Underlying().(type) {
+		switch u := t.Underlying().(type) {
 		case *types.Slice:
 			readsBytes = true
 			regions = append(regions, fl[0])
+			// slices of other element types: the element memories are read as well
+			if b, ok := u.Elem().Underlying().(*types.Basic); !ok || b.Kind() != types.Uint8 {
+				for _, l := range leavesOf(u.Elem()) {
+					mn := elemMemName(u.Elem(), l)
+					em := effectiveMem(e.mem(st, mn, elemKS, l.sort), fl[0])
+					if em != nil {
+						elemVers = append(elemVers, fmt.Sprint(em.id))
+						if em.kind != MBase {
+							pristine = false
+						}
+					}
+				}
+				// and whatever byte slices the elements hold: no region is known for those
+				wholeBytes = true
+			}
 		case *types.Basic:
 			if isStringType(t) {
 				readsBytes = true
@@ -311,7 +329,11 @@ func (e *Engine) applySpecUF(fr *Frame, st *State, fn *ssa.Function, args []Valu
 				id = em.id
 			}
 		}
-		if id < 0 {
+		if wholeBytes && pristine {
+			// the byte slices held by pre-state elements are pre-state regions: writes to memory
+			// allocated since do not concern them
+			id = effectiveMemPre(m).id
+		} else if id < 0 || wholeBytes {
 			id = m.id
 		}
 		if os.Getenv("GOVC_DEBUG_MEM") != "" {
@@ -322,6 +344,9 @@ func (e *Engine) applySpecUF(fr *Frame, st *State, fn *ssa.Function, args []Valu
 			fmt.Fprintln(os.Stderr)
 		}
 		name = fmt.Sprintf("%s.m%d", name, id)
+		if len(elemVers) > 0 {
+			name += ".e" + strings.Join(elemVers, "_")
+		}
 	}
 	rs := leavesOf(res.At(0).Type())[0].sort
 	app := UF(name, rs, ts...)
